@@ -436,6 +436,30 @@ def budget1(e0: int) -> int:
     return 100 * e0 + 200_000
 
 
+ENV_KNOBS: list[dict[str, Any]] = [
+    {},
+    {},
+    {"environ": {"COLUMNS": "0", "LINES": "0"}},
+    {"environ": {"COLUMNS": "1"}},
+    {"environ": {"COLUMNS": "7", "TERM": "dumb"}},
+    {"environ": {"COLUMNS": "100000"}},
+    {"environ": {"COLUMNS": "abc", "NO_COLOR": "1"}},
+    {"terminal": [0, 0]},
+    {"terminal": [1, 1]},
+    {"terminal": [3, 2]},
+    {"terminal": [80, 24]},
+    {"terminal": [100000, 1]},
+    {"terminal": "none", "environ": {"COLUMNS": None}},
+    {"environ": {"LANG": "C", "LC_ALL": "C", "TZ": "UTC+25", "HOME": "/nonexistent", "TMPDIR": "/nonexistent"}},
+]
+
+
+def env_knobs(case: dict[str, Any]) -> dict[str, Any]:
+    """Environment of one execution (terminal size, a few environment variables): a function of the case."""
+    k = case.get("env_knob")
+    return dict(ENV_KNOBS[k % len(ENV_KNOBS)]) if isinstance(k, int) else {}
+
+
 def make_spec(entry: str, mapping: str, budget: int, abs_paths: bool = False) -> dict[str, Any]:
     if entry == "string":
         return {"entry": "string", "src": "main.s", "rom": mapping, "budget": budget, "range_guard": True, "abs_paths": abs_paths}
@@ -455,7 +479,7 @@ def run_single(case: dict[str, Any], stats: Stats) -> list[Violation]:
     e0 = int(case.get("e0") or 50_000)
     spec = make_spec(entry, wl["mapping"], budget1(e0), bool(case.get("abs_paths")))
     try:
-        o = entries.execute_one(files, roles, spec, {}, [], mem_bytes=MEM_LIMIT, cpu_s=CPU_STAGE1_S)
+        o = entries.execute_one(files, roles, spec, env_knobs(case), [], mem_bytes=MEM_LIMIT, cpu_s=CPU_STAGE1_S)
     except core.ChildCpuExceeded:
         # no interpreter step went by for seconds of CPU time: a loop inside C code (e.g. a regular expression)
         o = {"kind": "timeout", "cpu": True, "steps": 0, "events": [], "fired": []}
@@ -478,6 +502,11 @@ def run_single(case: dict[str, Any], stats: Stats) -> list[Violation]:
                     stats.bump("probe:torn_utf8_through_file_entry")
     else:
         stats.state(core.digest(faulted), "unfaulted:" + wl["name"])
+    ek = env_knobs(case)
+    if ek.get("terminal") is not None:
+        stats.bump("benign:terminal_size_decided_by_the_simulator")
+    if ek.get("environ"):
+        stats.bump("benign:environment_variables_decided_by_the_simulator")
     if wl["name"] == "soup":
         stats.bump("probe:token_soup")
         if "g0.s" in files:
@@ -489,7 +518,7 @@ def run_single(case: dict[str, Any], stats: Stats) -> list[Violation]:
     # over the first-stage budget: confirm under the hard budget
     spec2 = make_spec(entry, wl["mapping"], HARD_BUDGET, bool(case.get("abs_paths")))
     try:
-        o2 = entries.execute_one(files, roles, spec2, {}, [], mem_bytes=MEM_LIMIT, wall_s=900, cpu_s=CPU_STAGE2_S)
+        o2 = entries.execute_one(files, roles, spec2, env_knobs(case), [], mem_bytes=MEM_LIMIT, wall_s=900, cpu_s=CPU_STAGE2_S)
     except core.ChildCpuExceeded:
         o2 = {"kind": "timeout", "cpu": True, "steps": 0, "events": [], "fired": [], "stuck_in": ["(no Python step for %d s of CPU time: loop inside C code)" % CPU_STAGE2_S]}
     stats.add_outcome(o2)
@@ -527,7 +556,7 @@ def expand(case: dict[str, Any], stats: Stats) -> Iterator[dict[str, Any]]:
     rng = core.substream(case["seed"], "faults")
     if "soup_batch" in wl:
         for s in wl["soup_batch"]:
-            yield {"type": "single", "workload": s, "faults": [], "entry": rng.choice(["string", "string", "patch"]), "e0": 50_000, "abs_paths": rng.random() < 0.3}
+            yield {"type": "single", "workload": s, "faults": [], "entry": rng.choice(["string", "string", "patch"]), "e0": 50_000, "abs_paths": rng.random() < 0.3, "env_knob": rng.randrange(len(ENV_KNOBS)) if rng.random() < 0.6 else None}
             data = s["files"]["main.s"]
             if len(data) > 2:
                 yield {"type": "single", "workload": s, "faults": [{"kind": "truncate", "at": rng.randrange(1, len(data))}], "entry": "string", "e0": 50_000}
@@ -550,7 +579,7 @@ def expand(case: dict[str, Any], stats: Stats) -> Iterator[dict[str, Any]]:
     data = wl["files"][wl["target"]]
     for faults in fault_menu(data, rng, 150):
         entry = "patch" if rng.random() < 0.3 else "string"
-        yield {"type": "single", "workload": wl, "faults": faults, "entry": entry, "e0": e0[entry], "abs_paths": rng.random() < 0.25}
+        yield {"type": "single", "workload": wl, "faults": faults, "entry": entry, "e0": e0[entry], "abs_paths": rng.random() < 0.25, "env_knob": rng.randrange(len(ENV_KNOBS)) if rng.random() < 0.6 else None}
 
 
 def run_case(case: dict[str, Any], stats: Stats) -> list[Violation]:
@@ -592,6 +621,10 @@ def shrink_candidates(case: dict[str, Any]) -> Iterator[dict[str, Any]]:
         return
     if case["entry"] != "string":
         yield dict(case, entry="string")
+    if case.get("env_knob") is not None:
+        yield dict(case, env_knob=None)
+    if case.get("abs_paths"):
+        yield dict(case, abs_paths=False)
     data = wl["files"][wl["target"]]
     n = len(data)
     step = max(1, n // 2)
@@ -614,8 +647,8 @@ def shrink_candidates(case: dict[str, Any]) -> Iterator[dict[str, Any]]:
 
 def evidence(total: Stats, tier: str) -> dict[str, Any]:
     return {
-        "components_real": ["a816 scanner, parser, codegen, resolver, emit (string API and assemble_as_patch)", "CPython TextIOWrapper/BufferedReader for the file entry", "kernel tmpfs"],
-        "components_stubbed": ["wall time -> deterministic step clock (sys.monitoring)", "raw file layer (SimRaw, no faults injected at this layer for C15: damage is applied to the stored bytes)", "user Writer"],
+        "components_real": ["a816 scanner, parser, codegen, resolver, emit (string API and assemble_as_patch)", "CPython TextIOWrapper/BufferedReader for the file entry", "kernel tmpfs", "real lock objects behind the blocking seam"],
+        "components_stubbed": ["wall time -> deterministic step clock (sys.monitoring)", "raw file layer (SimRaw, no faults injected at this layer for C15: damage is applied to the stored bytes)", "user Writer", "terminal size (os.get_terminal_size) and selected environment variables", "time.sleep -> virtual clock; blocking lock acquire / Condition.wait with nobody to release -> 'blocks forever'"],
         "simulated_time": "interpreter_steps_simulated is the simulated time covered (steps of the deterministic clock)",
         "hard_budget_steps": HARD_BUDGET,
         "exhaustive_within_run": "EOF at every byte offset of every workload file of <= 600 bytes",
